@@ -490,7 +490,12 @@ static int vsprcatf_core(
                 else {
                     IntArg = va_arg(ap, unsigned);
                 }
-                FormatContext.Arg[1]     = 16;
+                /* a precision given along with %x is the number system
+                   (the listing passes its radix this way): */
+
+                if (!FormatContext.ArgState[1]) {
+                    FormatContext.Arg[1] = 16;
+                }
                 FormatContext.ForceUpper = as_isupper(*pFormat);
                 goto IntCommon;
             }
